@@ -15,7 +15,7 @@ import (
 // C08 — validation results are written back: 304 freshens, 200 replaces.
 func init() { register(&Check{ID: "C08", Run: runC08, ShardDepth: 3}) }
 
-var c08Answers = []string{"304", "304+X-New", "304+max-age=20", "304+CL+hop", "304+CL+hop-lowercase", "304+CL+hop-two-lines", "304-no-date", "304+two-cc-lines", "200-same-vary", "200-other-vary", "200-no-store", "500", "410-max-age=30", "404-max-age=30"}
+var c08Answers = []string{"304", "304+X-New", "304+max-age=20", "304+CL+hop", "304+CL+hop-lowercase", "304+CL+hop-two-lines", "304+two-vary-lines", "304-slow", "304-no-date", "304+two-cc-lines", "200-same-vary", "200-other-vary", "200-no-store", "500", "410-max-age=30", "404-max-age=30"}
 
 func runC08(x *mc.X) {
 	kind := mc.Pick(x, "stored.kind", []string{"max-age=10", "heuristic", "max-age=5,swr=100"})
@@ -122,6 +122,14 @@ func runC08(x *mc.X) {
 					hh = append(hh, [2]string{"Cache-Control", "max-age=20"})
 				case "304+two-cc-lines": // a repeated field: both lines replace the stored field
 					hh = append(hh, [2]string{"Cache-Control", "public"}, [2]string{"Cache-Control", "max-age=20"}, [2]string{"Link", "<a>; rel=x"}, [2]string{"Link", "<b>; rel=y"})
+				case "304+two-vary-lines": // the Vary list of the 304 spans two field lines: both replace the stored field
+					for i := range hh {
+						if hh[i][0] == "Vary" {
+							hh = append(hh[:i], hh[i+1:]...)
+							break
+						}
+					}
+					hh = append(hh, [2]string{"Vary", "X-A"}, [2]string{"Vary", "X-C"})
 				case "304+CL+hop":
 					hh = append(hh, [2]string{"Content-Length", "9999"}, [2]string{"Connection", "X-Hop"}, [2]string{"X-Hop", "h"}, [2]string{"Keep-Alive", "timeout=5"})
 				case "304+CL+hop-two-lines": // every Connection field line nominates hop-by-hop fields
@@ -129,7 +137,11 @@ func runC08(x *mc.X) {
 				case "304+CL+hop-lowercase": // connection options are case-insensitive
 					hh = append(hh, [2]string{"Content-Length", "9999"}, [2]string{"Connection", "x-hop, KEEP-ALIVE"}, [2]string{"X-Hop", "h"}, [2]string{"Keep-Alive", "timeout=5"})
 				}
-				resp := o.Respond(c, RS{Status: 304, NoTok: true, H: hh, NoDate: ans == "304-no-date"})
+				var slow time.Duration
+				if ans == "304-slow" { // the validation takes 4 s and its reply carries no Date: the age restarts from the exchange as a whole
+					slow = 4 * time.Second
+				}
+				resp := o.Respond(c, RS{Status: 304, NoTok: true, H: hh, NoDate: ans == "304-no-date" || ans == "304-slow", Delay: slow})
 				h304, c304 = resp.Header.Clone(), c
 				if h304.Get("Date") == "" {
 					// a recipient with a clock records the time of receipt as Date (RFC 9110 §6.6.1)
@@ -158,6 +170,10 @@ func runC08(x *mc.X) {
 			return resp, nil
 		})
 		o := get(w, U, reqHdr...)
+		if ans == "304-slow" && len(o.BgCalls) > 0 {
+			world.Advance(5 * time.Second) // a background validation is still at the origin: let it finish
+			o.BgCalls = w.Origin.CallsSince(w.Origin.NCalls() - 1)
+		}
 		logObs(x, fmt.Sprintf("round %d: GET X-A=1 stale by %ds (origin answers %s)", r, staleBy, ans), o)
 		for _, c := range o.BgCalls {
 			x.Logf("    background origin: %s", c)
@@ -192,8 +208,10 @@ func runC08(x *mc.X) {
 		// follow-up inside the new lifetime
 		life = oracle.MaxLife(ghost.Lifetimes())
 		L = life.Num / life.Den
-		off := mc.Pick(x, fmt.Sprintf("round%d.follow-up-at", r), []int64{1, max(L-2, 1)})
-		if off+1 >= L {
+		// what is left of the new lifetime: the age restarts from the validation exchange, which may itself have taken time
+		rem := L - oracle.MaxAge(ghost.Ages(time.Now()))
+		off := mc.Pick(x, fmt.Sprintf("round%d.follow-up-at", r), []int64{1, max(rem-2, 1)})
+		if off+1 >= rem {
 			x.Skip()
 		}
 		world.Advance(secs(off))
